@@ -81,7 +81,7 @@ var (
 	c33EErr     error
 )
 
-var c33Buckets = []string{"bucket", "my.bucket", "a-b", "www.example.com", "abc"}
+var c33Buckets = []string{"bucket", "my.bucket", "a-b", "www.example.com", "abc", "photos"}
 
 func c33SetupE(scratch string) {
 	c33EOnce.Do(func() {
@@ -277,6 +277,9 @@ func (c33) Run(in string, scratch string) Result {
 		} else {
 			oracle = "FAIL:virtual-hosted request is treated as [" + obs.out + "], its path-style twin " + twin + " as [" + t.out + "]"
 		}
+		if path == "/"+bucket || strings.HasPrefix(path, "/"+bucket+"/") {
+			tags = append(tags, "key-starts-with-bucket")
+		}
 		if strings.HasSuffix(path, "/") && path != "/" {
 			tags = append(tags, "trailing-slash") // the region of the former defect (fixed by /repo 18a80a7)
 		}
@@ -288,6 +291,9 @@ func (c33) Run(in string, scratch string) Result {
 			tags = append(tags, "website")
 		} else {
 			tags = append(tags, "custom-domain")
+			if strings.HasSuffix(h, c33API) || strings.HasSuffix(h, c33Web) {
+				tags = append(tags, "lookalike-domain")
+			}
 		}
 		// website endpoints never change state: only GET/HEAD get past the router, nothing but the
 		// website-configuration lookup touches storage before authorization
@@ -374,6 +380,26 @@ func c33Line(mode, method, host, path string) string {
 var c33Methods = []string{"GET", "HEAD", "PUT", "DELETE", "POST", "PATCH", "TRACE", "GET", "PUT"}
 var c33KeySegs = []string{"a", "folder", "k", "x y", "%41", "a%2Fb", "ü", ".", "..", "", "index.html", "b", "...", "a.b", "+", "?", "#", ":", "*"}
 
+// keys that look like addressing artefacts: the bucket's own name as first segment(s), the endpoint or the
+// virtual host name inside the key
+func c33SelfKey(r *Rng, b string) string {
+	tail := r.Pick([]string{"", "/", "/2024/a.jpg", "//x", "/" + b, "/" + b + "/k", "/folder/", "/."})
+	switch r.Intn(8) {
+	case 0:
+		return b
+	case 1, 2, 3:
+		return b + tail
+	case 4:
+		return c33API + tail
+	case 5:
+		return b + "." + c33API + tail
+	case 6:
+		return "x/" + b + tail
+	default:
+		return strings.ToUpper(b[:1]) + b[1:] + tail
+	}
+}
+
 func c33Key(r *Rng) string {
 	n := 1 + r.Intn(4)
 	segs := make([]string, n)
@@ -415,6 +441,8 @@ func (c33) Gen(r *Rng, tier string, n int) []string {
 			path = "/"
 		case k == 1:
 			path = ""
+		case k < 5:
+			path = "/" + c33SelfKey(r, b)
 		default:
 			path = "/" + c33Key(r)
 		}
@@ -430,7 +458,9 @@ func (c33) Gen(r *Rng, tier string, n int) []string {
 		case k < 17: // website endpoint
 			emit("A", method, b+"."+c33Web+port, path)
 		case k < 19: // custom domain
-			emit("A", method, r.Pick([]string{"www.example.com", "static.example.org", "[::1]", "localhost", "example"})+port, path)
+			// incl. domains that merely END with an endpoint string, without a dot boundary
+			emit("A", method, r.Pick([]string{"www.example.com", "static.example.org", "[::1]", "localhost", "example",
+				"assets3.localhost", "mys3.localhost", "xs3-website.localhost", "photoss3.localhost", "s3.localhost.example.com"})+port, path)
 		default: // odd hosts
 			emit("A", method, r.Pick([]string{"." + c33API, c33API + ".", "x" + c33API, "." + c33Web, c33Web, "b." + c33API + ":", "[::1]:80", "b.s3.localhost.evil.com", "S3.LOCALHOST", "a.b.c." + c33API}), path)
 		}
@@ -438,6 +468,9 @@ func (c33) Gen(r *Rng, tier string, n int) []string {
 	for len(cases) < n { // end to end on real storage: PUT both ways
 		b := r.Pick(c33Buckets)
 		key := c33Key(r)
+		if r.Chance(35) {
+			key = c33SelfKey(r, b)
+		}
 		if key == "" { // "PUT /" virtual-hosted is CreateBucket, not an object write
 			continue
 		}
